@@ -805,6 +805,7 @@ func main() {
 		{"numbers", common.TLCRun{Dir: "C06", Module: "PyLiteralGen", Config: "lit_num.cfg", Timeout: 10 * time.Minute}, handleL},
 		{"strings", common.TLCRun{Dir: "C06", Module: "PyLiteralGen", Config: map[bool]string{false: "lit_str_quick.cfg", true: "lit_str_thorough.cfg"}[env.Thorough()], Timeout: 14 * time.Minute}, handleL},
 		{"pairs", mk("pairs", genCfg(seed, "pairs", 0, env.Pick(2, 3), 0, 0, env.Pick(0, 2))), handleG},
+		{"stmtseq", mk("stmtseq", genCfg(seed, "stmtseq", 0, env.Pick(6, 12), 0, 0, 0)), handleG},
 		{"random", mk("random", genCfg(seed, "random", env.Pick(700, 3000), 3, env.Pick(2, 3), env.Pick(1, 2), 4)), handleG},
 	}
 	if env.Thorough() {
